@@ -862,10 +862,44 @@ func (e *Engine) registerDomain() {
 	r("opaque:jwt.Get", func(c *CallCtx) []Outcome {
 		ts := c.args[0].(IfaceV).v.(OpaqueV).data.(*tokSpec)
 		claim := mustConstStr(c.args[1])
-		if claim != "nonce" {
-			unm("jwt.Token.Get(%q)", claim)
-		}
 		basic := func(k types.BasicKind) types.Type { return types.Typ[k] }
+		if claim != "nonce" {
+			// any other claim the code under test asks for: absent, or present with an arbitrary
+			// short string value -- drawn the first time it is asked for (deterministic names, so that
+			// sibling paths agree), recorded as inputs "<token>-claim-<name>[-present]" which the native
+			// token builder picks up
+			st := c.st
+			in := ts.name + "-claim-" + claim
+			key := "jwtclaim:" + in
+			var present *Term
+			var val *Str
+			if v, ok := st.ghost[key]; ok {
+				tv := v.(TupleV)
+				present, val = tv[0].(*Term), tv[1].(*Str)
+			} else {
+				present = NamedVar("b_"+in+"-present", SBool)
+				arr, n := NamedVar("s_"+in+"_a", SArr), NamedVar("s_"+in+"_n", SInt)
+				const capv = 4
+				cs := []*Term{Le(I(0), n), Le(n, I(capv))}
+				for i := 0; i < capv; i++ {
+					b := Select(arr, I(int64(i)))
+					cs = append(cs, Le(I(0), b), Le(b, I(255)))
+				}
+				st.addDef(And(cs...))
+				val = &Str{p: []Piece{{arr: arr, off: I(0), n: n, cap: capv}}}
+				st.ghost[key] = TupleV{present, val}
+				st.inputs = append(st.inputs, InputRec{Name: in + "-present", Kind: "bool", T: present}, InputRec{Name: in, Kind: "string", S: val})
+			}
+			a, b := c.e.forkOn(st, present)
+			var outs []Outcome
+			if a != nil {
+				outs = append(outs, Outcome{st: a, val: TupleV{IfaceV{t: basic(types.String), v: val}, tTrue}})
+			}
+			if b != nil {
+				outs = append(outs, Outcome{st: b, val: TupleV{IfaceV{}, tFalse}})
+			}
+			return outs
+		}
 		conds := make([]*Term, 5)
 		for k := 0; k < 5; k++ {
 			conds[k] = Eq(ts.nonceKind, I(int64(k)))
